@@ -36,6 +36,13 @@ NestedDevs(e, i) ==
     ELSE LET n == k.nest[1] IN
          {Dev("C20.layout", "nested_" \o p, [op |-> e.op, child |-> i, horiz |-> n.horiz, W |-> k.w, H |-> k.h, kids |-> n.kids])
             : p \in LayoutWrong(n.horiz, k.w, k.h, n.kids)}
+         \* the preferred size a layout reports is that of its children now: extents summed along its axis, the largest across
+         \cup (LET pws == [j \in 1..Len(n.kids) |-> n.kids[j].pw]  phs == [j \in 1..Len(n.kids) |-> n.kids[j].ph]
+                   mx(q) == IF Len(q) = 0 THEN 0 ELSE CHOOSE v \in {q[j] : j \in 1..Len(q)} : \A j \in 1..Len(q) : q[j] <= v
+                   wantw == IF n.horiz THEN SumSeq(pws, 1) ELSE mx(pws)
+                   wanth == IF n.horiz THEN mx(phs) ELSE SumSeq(phs, 1)
+               IN IF k.pw = wantw /\ k.ph = wanth THEN {}
+                  ELSE {Dev("C20.layout", "nested_preferred_size_stale", [op |-> e.op, child |-> i, got |-> <<k.pw, k.ph>>, want |-> <<wantw, wanth>>])})
          \cup UNION { LET g == n.kids[j] IN
                       IF ~NonEmpty(g) THEN (IF g.drawn[5] = 0 THEN {} ELSE {Dev("C20.layout", "nested_empty_child_drew", <<i, j, g.drawn>>)})
                       ELSE IF g.x < 0 \/ g.y < 0 \/ g.x + g.w > k.w \/ g.y + g.h > k.h THEN {}      \* reported by LayoutWrong
